@@ -31,7 +31,8 @@ var generatedSecrets = map[string]int{
 var submittedSecretMethods = map[string]bool{"GetPassword": true, "GetToken": true, "GetCode": true, "GetRecoveryCode": true}
 
 // errors of these external functions quote their input
-var echoingErrors = []string{"strconv.", "net/url.Parse", "net/url.ParseRequestURI", "time.Parse", "encoding/json."}
+// (encoding/json errors name types, fields and offsets, not the input)
+var echoingErrors = []string{"strconv.", "net/url.Parse", "net/url.ParseRequestURI", "time.Parse"}
 
 // secretSlicer: slice that stops at sanitisers and lifts parameters into callers.
 func (c *Ctx) secretSlicer() Slicer {
@@ -117,6 +118,15 @@ func (c *Ctx) secretSlicer() Slicer {
 
 // secretSource classifies an origin as a secret.
 func (c *Ctx) secretSource(o Origin, forLog bool) string {
+	// the undigested request: body bytes and parsed form hold every submitted
+	// secret at once
+	if forLog && o.Kind == "field" {
+		for _, suf := range []string{"Request.Body", "Request.Form", "Request.PostForm", "Request.MultipartForm"} {
+			if strings.HasSuffix(o.Name, suf) {
+				return "the raw request (" + suf + "), which carries the submitted password/code/token"
+			}
+		}
+	}
 	if o.Kind != "call" {
 		return ""
 	}
